@@ -5,6 +5,7 @@ import ExoVerif.Model.VPOracle
    ops:  vp.reset | vp.note … | vp.avs <addr> <epochId> <startingEpoch>
          vp.entry <avs> <op> <self> <total> <active> | vp.avsval <avs> <val>
          vp.optin <avs> <op> | vp.optout <avs> <op>
+         vp.read <avs> <op> <none|out|in> <jailed 0|1>   → self,total,active | ErrNoKeyInTheStore
          vp.oracle <nTokens> { <Token.AssetID | -> <latest price | - (no round) | x (not an integer)> <decimal> }*
                   the oracle's token table (position = token id) and latest rounds as committed before the block
          vp.block <nEv> {<id> <n>}* <nAvs> { <avs> <assetsOk> <nAssets|-1> {<asset> <adec>}*
@@ -134,6 +135,13 @@ def step (d : DS) (w : List String) : DS × String :=
     | none => (d, "bad-op")
   | ["vp.optin", avs, op] => ({ d with st := optIn d.st avs op }, "ok")
   | ["vp.optout", avs, op] => ({ d with st := optOut d.st avs op }, "ok")
+  | ["vp.read", avs, op, st, j] =>
+    -- GetOperatorOptedUSDValue for the OptedInfo state the harness read: none | out | in, jailed 0/1
+    let info : Option OptedInfo :=
+      if st == "none" then none else some { optedOut := st == "out", jailed := j == "1" }
+    match readOpted d.st avs op info with
+    | .error e => (d, e)
+    | .ok o => (d, s!"{o.self},{o.total},{o.active}")
   | "vp.oracle" :: n :: rest =>
     match parseNat? n with
     | some n =>
